@@ -12,14 +12,32 @@ func genSim(r *term.Rng, idx int) term.T {
 	if r.Chance(1, 4) {
 		ne = r.Range(1, 2)
 	}
+	if r.Chance(1, 25) {
+		// a side (or both) without any unit: a valid configuration, the battle is decided at once
+		switch r.Intn(3) {
+		case 0:
+			nc = 0
+		case 1:
+			ne = 0
+		default:
+			nc, ne = 0, 0
+		}
+	}
 	n := nc + ne
+	idN, idC := n, nc // upper ends of the id ranges drawn below (an id beyond the battle is an unknown unit)
+	if idN < 1 {
+		idN = 1
+	}
+	if idC < 1 {
+		idC = 1
+	}
 	hpScale := enemy.Curve(enemy.Curve1)[1].HPScaling
 	nscripts := r.Range(6, 15)
 	anyID := func() int64 {
 		if r.Chance(1, 30) {
 			return 99
 		}
-		return int64(r.Range(1, n))
+		return int64(r.Range(1, idN))
 	}
 	tsel := func() term.T {
 		switch r.Intn(6) {
@@ -61,11 +79,11 @@ func genSim(r *term.Rng, idx int) term.T {
 		if listener && r.Chance(1, 5) {
 			// a listener that kills outright (a chain reaction between two death checks), often a unit
 			// that has something queued
-			return term.C("SSetHP", term.C("TId", term.I(int64(r.Range(1, n)))), term.F(0))
+			return term.C("SSetHP", term.C("TId", term.I(int64(r.Range(1, idN)))), term.F(0))
 		}
 		if listener && r.Chance(1, 8) {
 			ab := []term.T{}
-			return term.C("SInsertAbility", term.I(int64(r.Range(1, 9))), term.I(term.Pick(r, prios)), term.C("TId", term.I(int64(r.Range(1, n)))), term.L(ab...), term.Nat(r.Intn(nbody)))
+			return term.C("SInsertAbility", term.I(int64(r.Range(1, 9))), term.I(term.Pick(r, prios)), term.C("TId", term.I(int64(r.Range(1, idN)))), term.L(ab...), term.Nat(r.Intn(nbody)))
 		}
 		if r.Chance(1, 14) {
 			// a heal with a flat value: of the living, of units at zero HP awaiting revival, of the dead
@@ -205,7 +223,7 @@ func genSim(r *term.Rng, idx int) term.T {
 		reqs := []term.T{}
 		if r.Chance(1, 3) {
 			for q := r.Range(1, 2); q > 0; q-- {
-				tgt := int64(r.Range(1, nc))
+				tgt := int64(r.Range(1, idC))
 				if r.Chance(1, 40) {
 					tgt = anyID()
 				}
@@ -222,9 +240,16 @@ func genSim(r *term.Rng, idx int) term.T {
 		}
 		ults = append(ults, term.L(reqs...))
 	}
+	// the content's listeners are subscribed by the first character's Create: a battle without characters has none
+	ln := func(k int) int {
+		if nc == 0 {
+			return 0
+		}
+		return k
+	}
 	return term.C("mkCfg", term.L(units...), term.L(scripts...), term.L(next...), term.L(ults...),
-		lids(r.Range(0, 1)), lids(r.Range(0, 4)), lids(r.Range(0, 4)), lids(r.Range(0, 4)), lids(r.Range(0, 3)),
-		lids(r.Range(0, 3)), lids(r.Range(0, 3)), aids(r.Range(0, 3)),
+		lids(ln(r.Range(0, 1))), lids(ln(r.Range(0, 4))), lids(ln(r.Range(0, 4))), lids(ln(r.Range(0, 4))), lids(ln(r.Range(0, 3))),
+		lids(ln(r.Range(0, 3))), lids(ln(r.Range(0, 3))), aids(ln(r.Range(0, 3))),
 		term.I(int64(r.Range(0, 4))), term.I(int64(r.Range(0, 12))))
 }
 
